@@ -1,3 +1,4 @@
+mod crash;
 mod detbulk;
 mod elem;
 mod entropy;
@@ -94,8 +95,23 @@ fn main() {
     }
     entropy::install_quiet_hook();
     match args.pos[0].as_str() {
-        "run" => cmd_run(&args),
-        "replay" => cmd_replay(&args),
+        "run" => {
+            if args.opts.contains_key("worker") {
+                crash::install_crash_handlers();
+                cmd_run(&args)
+            } else {
+                supervise_run(&args)
+            }
+        }
+        "replay" => supervise_replay(&args),
+        "replay-raw" => {
+            crash::install_crash_handlers();
+            cmd_replay(&args)
+        }
+        "one" => {
+            crash::install_crash_handlers();
+            cmd_one(&args)
+        }
         "gen" => {
             if args.pos.len() < 5 {
                 usage();
@@ -147,7 +163,9 @@ fn cmd_run(args: &Args) {
     report::load_known(prop.name());
     println!("VERIF_SEED={} property={} tier={:?} runs={} threads={} profile={}", seed, prop.name(), tier, runs, threads, report::profile_name());
 
-    let out = run_batch(prop, tier, seed, runs, threads, max_secs);
+    let exclude: Vec<u64> = args.opts.get("exclude").map(|s| s.split(',').filter_map(|x| x.parse().ok()).collect()).unwrap_or_default();
+    let extra_violations: usize = args.opts.get("extra-violations").and_then(|s| s.parse().ok()).unwrap_or(0);
+    let out = run_batch(prop, tier, seed, runs, threads, max_secs, &exclude);
 
     if let Some(i) = out.determinism_mismatch {
         eprintln!("HARNESS ERROR: run {} produced two different trace digests for the same seed (nondeterminism in the simulator)", i);
@@ -200,7 +218,10 @@ fn cmd_run(args: &Args) {
     for (class, (n, msg)) in &out.stats.stats.known {
         println!("KNOWN-FINDING: property={} class={} hits={} e.g. {}", prop.name(), class, n, msg);
     }
-    let ev = report::evidence_json(prop, tier, seed, &out, samples, reported, &known_lines);
+    let mut ev = report::evidence_json(prop, tier, seed, &out, samples, reported + extra_violations, &known_lines);
+    if !exclude.is_empty() {
+        ev["coverage"]["runs_excluded_because_they_crashed_the_worker_process"] = json!(exclude);
+    }
     if let Some(dir) = evidence_path.parent() {
         let _ = std::fs::create_dir_all(dir);
     }
@@ -223,6 +244,162 @@ fn cmd_run(args: &Args) {
         std::process::exit(2);
     }
     std::process::exit(exit_code);
+}
+
+fn self_exe() -> PathBuf {
+    std::env::current_exe().unwrap_or_else(|_| PathBuf::from("simctl"))
+}
+
+fn raw_args() -> Vec<String> {
+    std::env::args().skip(1).collect()
+}
+
+/// Run the batch in a child process; if the child dies on a signal, attribute
+/// the crash to a run by re-executing the runs that were in flight one by one.
+fn supervise_run(args: &Args) {
+    if args.pos.len() < 3 {
+        usage();
+    }
+    let prop = Prop::from_name(&args.pos[1]).unwrap_or_else(|| usage());
+    let tier = tier_of(&args.pos[2]);
+    let seed = seed_from(args);
+    let mut exclude: Vec<u64> = vec![];
+    let mut crash_violations = 0usize;
+    for _round in 0..4 {
+        let mut cmd = std::process::Command::new(self_exe());
+        cmd.args(raw_args()).arg("--worker").arg("1").arg("--seed").arg(seed.to_string());
+        if !exclude.is_empty() {
+            cmd.arg("--exclude").arg(exclude.iter().map(|x| x.to_string()).collect::<Vec<_>>().join(","));
+            cmd.arg("--extra-violations").arg(crash_violations.to_string());
+        }
+        cmd.stderr(std::process::Stdio::piped());
+        let out = match cmd.output() {
+            Ok(o) => o,
+            Err(e) => {
+                eprintln!("HARNESS ERROR: cannot start worker: {}", e);
+                std::process::exit(2);
+            }
+        };
+        print!("{}", String::from_utf8_lossy(&out.stdout));
+        let err = String::from_utf8_lossy(&out.stderr).to_string();
+        let crashed = out.status.code() == Some(70) || out.status.code().is_none();
+        if !crashed {
+            eprint!("{}", err.lines().filter(|l| !l.starts_with("FOUND run=")).map(|l| format!("{}\n", l)).collect::<String>());
+            let code = out.status.code().unwrap_or(2);
+            if crash_violations > 0 && code == 0 {
+                std::process::exit(1);
+            }
+            std::process::exit(code);
+        }
+        // the worker died: which run?
+        let (sig, cands) = crash::parse_crash(&err).unwrap_or((0, vec![]));
+        eprintln!("worker process died (signal {}); runs in flight: {:?}; re-executing each alone", sig, cands);
+        let mut attributed = false;
+        for idx in cands {
+            if exclude.contains(&idx) {
+                continue;
+            }
+            let o = std::process::Command::new(self_exe())
+                .args(["one", prop.name(), if tier == Tier::Quick { "quick" } else { "thorough" }, &seed.to_string(), &idx.to_string()])
+                .output();
+            if let Ok(o) = o {
+                let died = o.status.code() == Some(70) || o.status.code().is_none();
+                let text = String::from_utf8_lossy(&o.stdout).to_string();
+                if died {
+                    let path = text.lines().find_map(|l| l.strip_prefix("REPLAY ")).unwrap_or("").to_string();
+                    println!("VIOLATION property={} replay={} class=crash run={} :: the library crashed the process (signal) while executing this scenario", prop.name(), path, idx);
+                    exclude.push(idx);
+                    crash_violations += 1;
+                    attributed = true;
+                } else if let Some(p) = text.lines().find_map(|l| l.strip_prefix("REPLAY ")) {
+                    let _ = std::fs::remove_file(p);
+                }
+            }
+        }
+        if !attributed {
+            // fall back on violations the worker announced before it died
+            let mut found: Vec<(u64, String)> = err
+                .lines()
+                .filter_map(|l| {
+                    let r = l.strip_prefix("FOUND run=")?;
+                    let mut it = r.split(" class=");
+                    Some((it.next()?.parse().ok()?, it.next()?.to_string()))
+                })
+                .collect();
+            found.sort();
+            if let Some((idx, class)) = found.first() {
+                let scn = generate(prop, seed, *idx, tier);
+                let v = scenario::Violation { class: class.clone(), msg: "found by a worker process that later died on a signal; not minimised".into(), op_index: 0 };
+                let j = report::replay_json(prop, &scn, &v, seed, *idx, tier, json!([]), false);
+                let path = report::write_replay(prop, seed, *idx, &j);
+                println!("VIOLATION property={} replay={} class={} run={} :: {}", prop.name(), path.display(), class, idx, v.msg);
+                std::process::exit(1);
+            }
+            eprintln!("HARNESS ERROR: the worker process crashed but no single run reproduces the crash in isolation\n{}", err);
+            std::process::exit(2);
+        }
+    }
+    std::process::exit(1);
+}
+
+/// one run in this process: write the replay file first, then execute
+fn cmd_one(args: &Args) {
+    if args.pos.len() < 5 {
+        usage();
+    }
+    let prop = Prop::from_name(&args.pos[1]).unwrap_or_else(|| usage());
+    let tier = tier_of(&args.pos[2]);
+    let seed: u64 = args.pos[3].parse().unwrap_or(DEFAULT_SEED);
+    let idx: u64 = args.pos[4].parse().unwrap_or(0);
+    report::load_known(prop.name());
+    let scn = generate(prop, seed, idx, tier);
+    let v = scenario::Violation { class: "crash".into(), msg: "the process died on a signal while executing this scenario".into(), op_index: 0 };
+    let j = report::replay_json(prop, &scn, &v, seed, idx, tier, json!([]), false);
+    let path = report::write_replay(prop, seed, idx, &j);
+    println!("REPLAY {}", path.display());
+    use std::io::Write;
+    let _ = std::io::stdout().flush();
+    let r = scn.exec(prop);
+    std::process::exit(if r.violations.is_empty() { 0 } else { 1 });
+}
+
+fn supervise_replay(args: &Args) {
+    if args.pos.len() < 2 {
+        usage();
+    }
+    // a replay recorded under the other build profile is executed by that binary
+    let mut exe = self_exe();
+    if let Ok(text) = std::fs::read_to_string(&args.pos[1]) {
+        if let Ok(v) = serde_json::from_str::<Value>(&text) {
+            let want_relcheck = v["found_by"]["profile"].as_str().map(|p| p.starts_with("relcheck")).unwrap_or(false);
+            let am_relcheck = cfg!(debug_assertions);
+            if want_relcheck != am_relcheck {
+                let other = exe.parent().and_then(|p| p.parent()).map(|t| t.join(if want_relcheck { "relcheck" } else { "release" }).join("simctl"));
+                if let Some(o) = other {
+                    if o.exists() {
+                        exe = o;
+                    }
+                }
+            }
+        }
+    }
+    let out = std::process::Command::new(exe).arg("replay-raw").arg(&args.pos[1]).output();
+    match out {
+        Ok(o) => {
+            print!("{}", String::from_utf8_lossy(&o.stdout));
+            eprint!("{}", String::from_utf8_lossy(&o.stderr));
+            if o.status.code() == Some(70) || o.status.code().is_none() {
+                let prop = std::fs::read_to_string(&args.pos[1]).ok().and_then(|t| serde_json::from_str::<Value>(&t).ok()).and_then(|v| v["property"].as_str().map(|s| s.to_string())).unwrap_or_default();
+                println!("VIOLATION property={} replay={} class=crash :: the library crashed the process (signal) while executing this scenario", prop, args.pos[1]);
+                std::process::exit(1);
+            }
+            std::process::exit(o.status.code().unwrap_or(2));
+        }
+        Err(e) => {
+            eprintln!("HARNESS ERROR: cannot start replay process: {}", e);
+            std::process::exit(2);
+        }
+    }
 }
 
 fn cmd_replay(args: &Args) {
